@@ -15,7 +15,8 @@ open Proto SigGen
       ds     <livetime> <sinTrueDec> <trueEnergy> <mcweight>
       flux   <g> <j> <fluxmodel values of the events of dataset j>
       table                                          -> ds:ev:shg:src,… <normalised weights> <weight sum> | ERR
-      valid  <0/1 per table row>
+      vrange <ds> <lo> <hi> <value of the field per table row>   (one line per configured (dataset, field); none = all valid)
+      agg    <counts> <number of per-dataset generators>  -> n;key=count,… | ERR   (aggregation after the fix)
       gen    <right01> <n> <us>                      -> n;used;ds=row,row,…|ds=… | ERR
       mu2flux <mu> <Phi0 per source> <unit per source> -> per-source fluxes;total
 -/
@@ -28,7 +29,7 @@ structure St where
   tab : List (Cand × Float) := []
   refN : Float := 0.0
   cdf : List Float := []
-  valid : List Bool := []
+  vr : List (Nat × Float × Float × List Float) := []
 
 def St.evs (s : St) (g j : Nat) : List (Ev Float) :=
   let evs := ((s.dss[j]?).map (·.2)).getD []
@@ -78,11 +79,17 @@ def step (s : St) (line : String) : St × String :=
         let tab := (raw.map (·.1)).zip wn
         ({ s with tab := tab, refN := refN, cdf := normCdf wn },
          s!"{fListD fCand (tab.map (·.1))} {fListD fF wn} {fF refN}")
-  | ["valid", bits] => ({ s with valid := pList pB bits }, "ok")
+  | ["vrange", d, lo, hi, vs] => ({ s with vr := s.vr ++ [(pN d, pF lo, pF hi, pList pF vs)] }, "ok")
+  | ["agg", cs, k] =>
+      let gens : List DsGen := (List.range (pN k)).map fun j c =>
+        if c < 0 then none else some (c.toNat, [(j, c.toNat)])
+      match aggregate (pList pI cs) gens with
+      | none => (s, "ERR")
+      | some (n, d) => (s, s!"{n};{fListD (fun kv => s!"{kv.1}={kv.2}") d}")
   | ["gen", r, n, us] =>
       let uu := pList pF us
-      let valid := fun (i : Nat) => (s.valid[i]?).getD false
-      match generate (pB r) (s.tab.map (·.1)) s.cdf valid (pN n) uu with
+      let valid := validOf (s.tab.map (·.1)) s.vr
+      match generateBuf (pB r) (s.tab.map (·.1)) s.cdf valid (pN n) uu with
       | none => (s, "ERR")
       | some (nsig, out, rest) =>
         let body := String.intercalate "|" (out.map fun (d, rows) => s!"{d}={fListD toString (rows.map (·.1))}")
